@@ -407,6 +407,25 @@ func backSlice(v ssa.Value, visit func(ssa.Value) bool) {
 		if !ok {
 			return
 		}
+		// a local array/struct cell (e.g. the varargs array of append): follow what is stored into it
+		if al, ok := v.(*ssa.Alloc); ok && al.Referrers() != nil {
+			for _, rf := range *al.Referrers() {
+				switch x := rf.(type) {
+				case *ssa.Store:
+					if x.Addr == al {
+						walk(x.Val, depth+1)
+					}
+				case *ssa.IndexAddr, *ssa.FieldAddr:
+					if refs := x.(ssa.Value).Referrers(); refs != nil {
+						for _, rr := range *refs {
+							if st, ok := rr.(*ssa.Store); ok && st.Addr == x.(ssa.Value) {
+								walk(st.Val, depth+1)
+							}
+						}
+					}
+				}
+			}
+		}
 		var ops []*ssa.Value
 		for _, op := range in.Operands(ops) {
 			if op != nil && *op != nil {
